@@ -145,7 +145,7 @@ func (e *Env) Setup(pollers int, faults bool) {
 		vsys.K.ShortWrite = rate()
 		vsys.K.SendEAGAIN = rate() / 2
 		vsys.K.ShortRead = rate()
-		vsys.K.ReadEINTR = rate() / 4
+		// no EINTR on reads: a non-blocking read never sleeps, so Linux never interrupts it
 		vsys.K.EpollEINTR = rate() / 2
 		vsys.K.EpollClip = rate()
 	}
@@ -405,6 +405,25 @@ func SimRunScenario(name string, cfg simrt.Config) *SimResult {
 			site := panicSite(p.Stack)
 			res.Violations = append(res.Violations, simrt.Violation{Property: sc.Property, Oracle: "no-panic",
 				Class: sc.Property + "/panic/" + site, Fingerprint: sc.Property + "/panic/" + site, Message: "panic in task " + p.Task + ": " + p.Value + "\n" + p.Stack, Step: p.Step})
+		}
+	}
+	// a capped run that ended in a tight loop of one task is a livelock, not an inconclusive run
+	if res.Outcome == "capped" && res.Spin != "" && len(res.Violations) == 0 {
+		prop, what := "", ""
+		switch {
+		case strings.Contains(res.Spin, "(*server).Close"):
+			// Shutdown polls the tracked connections for ever: one of them never goes away
+			prop, what = "C13", "shutdown-never-returns"
+		case strings.Contains(res.Spin, "(*FDOperator).do") && strings.Contains(res.Spin, "EpollWait") &&
+			!strings.Contains(res.Spin, "readv") && !strings.Contains(res.Spin, "sendmsg") && !strings.Contains(res.Spin, "Accept"):
+			// the poller keeps fetching an event it cannot dispatch: the descriptor is still registered
+			// although its slot was released
+			prop, what = "C05", "poller-spins-on-released-slot"
+		}
+		if prop != "" {
+			fns := res.Spin[strings.Index(res.Spin, "|")+1:]
+			res.Violations = append(res.Violations, simrt.Violation{Property: prop, Oracle: "no-livelock", Class: prop + "/" + what, Fingerprint: prop + "/" + what,
+				Message: "the run never came to rest: task " + res.Spin[:strings.Index(res.Spin, "|")] + " cycles through " + fns, Step: res.Steps})
 		}
 	}
 	return &SimResult{Result: res, Summary: e.Summary, State: e.State, NonTrivial: e.nonTriv, Hist: e.Hist}
